@@ -18,6 +18,7 @@ func extractMore(f *Facts) {
 	extractQueryStub(f)
 	extractStubInterface(f)
 	extractProcess(f)
+	extractPanicSkeleton(f)
 }
 
 // extractStubInterface parses shim.ChaincodeStubInterface from the module cache copy named in go.mod.
